@@ -196,104 +196,7 @@ func checkC15(c *Ctx) {
 	}
 
 	// ---- R2 Matches == serialisation
-	c.Rule("C15.R2.match-fields", "fields compared by Matches/equalLocations/equalNodes are exactly the JSON-visible fields of the struct compared; omitempty only on fields whose zero value decodes to itself", 14)
-	type cmpSpec struct{ fn, typ string }
-	for _, cs := range []cmpSpec{{"SpecDifference.Matches", "SpecDifference"}, {"equalLocations", "DifferenceLocation"}, {"equalNodes", "Node"}} {
-		fd := load.FuncDecl(pk, cs.fn)
-		tn, _ := pk.Types.Scope().Lookup(cs.typ).(*types.TypeName)
-		if fd == nil || tn == nil {
-			c.Anchor("C15.R2.match-fields", cs.fn, "function or type not found")
-			continue
-		}
-		st, _ := tn.Type().Underlying().(*types.Struct)
-		if st == nil {
-			c.Anchor("C15.R2.match-fields", cs.typ, "not a struct")
-			continue
-		}
-		// the two operands: receiver/param 0 and param 1 (or params 0 and 1)
-		var ops []types.Object
-		if fd.Recv != nil {
-			for _, n := range fd.Recv.List[0].Names {
-				ops = append(ops, info.Defs[n])
-			}
-		}
-		for _, fl := range fd.Type.Params.List {
-			for _, n := range fl.Names {
-				ops = append(ops, info.Defs[n])
-			}
-		}
-		if len(ops) != 2 {
-			c.Anchor("C15.R2.match-fields", cs.fn, "expected exactly two operands")
-			continue
-		}
-		// collect fields F such that the function's returned boolean expression contains a
-		// conjunct  a.F == b.F  or  helper(a.F, b.F)
-		compared := map[string]bool{}
-		var collect func(e ast.Expr)
-		collect = func(e ast.Expr) {
-			switch x := ast.Unparen(e).(type) {
-			case *ast.BinaryExpr:
-				if x.Op == token.LAND {
-					collect(x.X)
-					collect(x.Y)
-					return
-				}
-				if x.Op == token.EQL {
-					fa, oa := fieldOf(info, x.X)
-					fb, ob := fieldOf(info, x.Y)
-					if fa != "" && fa == fb && oa != ob && (oa == ops[0] || oa == ops[1]) && (ob == ops[0] || ob == ops[1]) {
-						compared[fa] = true
-					}
-				}
-			case *ast.CallExpr:
-				if len(x.Args) == 2 {
-					fa, oa := fieldOf(info, x.Args[0])
-					fb, ob := fieldOf(info, x.Args[1])
-					callee := goan.Callee(info, x)
-					if fa != "" && fa == fb && oa != ob && callee != nil && callee.Pkg() == pk.Types && strings.HasPrefix(callee.Name(), "equal") {
-						compared[fa] = true
-					}
-				}
-			}
-		}
-		// the comparison is the operand of the last return statement
-		var last *ast.ReturnStmt
-		for _, s := range fd.Body.List {
-			if r, ok := s.(*ast.ReturnStmt); ok {
-				last = r
-			}
-		}
-		if last == nil || len(last.Results) != 1 {
-			c.Anchor("C15.R2.match-fields", cs.fn, "final `return <conjunction>` not found")
-			continue
-		}
-		collect(last.Results[0])
-		for i := 0; i < st.NumFields(); i++ {
-			f := st.Field(i)
-			name, opts, has := goan.StructTagJSON(st.Tag(i))
-			visible := f.Exported() && !(has && name == "-")
-			construct := fmt.Sprintf("diff.%s › %s.%s", cs.fn, cs.typ, f.Name())
-			if visible {
-				c.Check(compared[f.Name()], "C15.R2.match-fields", construct, c.posOf(pk, fd.Pos()),
-					"serialised field is compared", "field "+f.Name()+" is written to the JSON report but not compared by "+cs.fn+": ignoring one entry also ignores entries that differ only in this field")
-			} else {
-				c.Check(!compared[f.Name()], "C15.R2.match-fields", construct, c.posOf(pk, fd.Pos()),
-					"non-serialised field is not compared", "field "+f.Name()+" is compared but never serialised: an ignore file read back can never match")
-			}
-			// omitempty only where zero value round-trips to zero: string, bool, int, pointer, slice, map
-			for _, o := range opts {
-				if o == "omitempty" {
-					switch u := f.Type().Underlying().(type) {
-					case *types.Basic, *types.Pointer, *types.Slice, *types.Map:
-						_ = u
-						c.Ok("C15.R2.match-fields", construct+" › omitempty", c.posOf(pk, f.Pos()), "zero value omitted and decoded back to the zero value")
-					default:
-						c.Bad("C15.R2.match-fields", construct+" › omitempty", c.posOf(pk, f.Pos()), "omitempty on a struct-typed field has no effect / is not symmetric")
-					}
-				}
-			}
-		}
-	}
+	checkMatchFields(c, "C15.R2.match-fields", pk)
 
 	// ---- R3 FilterIgnores and its place in Execute
 	c.Rule("C15.R3.filter", "FilterIgnores keeps an element iff !ignores.Contains(element); Contains is an existential over Matches; Execute filters before every report", 3)
@@ -1041,4 +944,111 @@ func checkSections(c *Ctx, rule string, pk *packages.Package) {
 	} else {
 		c.Anchor(rule, "SpecDifferences.reportChanges", "not found")
 	}
+}
+
+// checkMatchFields: what identifies a difference (Matches / equalLocations / equalNodes) is what is
+// serialised for it — an ignore entry matches exactly the difference it was written from.
+func checkMatchFields(c *Ctx, rule string, pk *packages.Package) {
+	info := pk.TypesInfo
+	_ = info
+	// ---- R2 Matches == serialisation
+	c.Rule(rule, "fields compared by Matches/equalLocations/equalNodes are exactly the JSON-visible fields of the struct compared; omitempty only on fields whose zero value decodes to itself", 14)
+	type cmpSpec struct{ fn, typ string }
+	for _, cs := range []cmpSpec{{"SpecDifference.Matches", "SpecDifference"}, {"equalLocations", "DifferenceLocation"}, {"equalNodes", "Node"}} {
+		fd := load.FuncDecl(pk, cs.fn)
+		tn, _ := pk.Types.Scope().Lookup(cs.typ).(*types.TypeName)
+		if fd == nil || tn == nil {
+			c.Anchor(rule, cs.fn, "function or type not found")
+			continue
+		}
+		st, _ := tn.Type().Underlying().(*types.Struct)
+		if st == nil {
+			c.Anchor(rule, cs.typ, "not a struct")
+			continue
+		}
+		// the two operands: receiver/param 0 and param 1 (or params 0 and 1)
+		var ops []types.Object
+		if fd.Recv != nil {
+			for _, n := range fd.Recv.List[0].Names {
+				ops = append(ops, info.Defs[n])
+			}
+		}
+		for _, fl := range fd.Type.Params.List {
+			for _, n := range fl.Names {
+				ops = append(ops, info.Defs[n])
+			}
+		}
+		if len(ops) != 2 {
+			c.Anchor(rule, cs.fn, "expected exactly two operands")
+			continue
+		}
+		// collect fields F such that the function's returned boolean expression contains a
+		// conjunct  a.F == b.F  or  helper(a.F, b.F)
+		compared := map[string]bool{}
+		var collect func(e ast.Expr)
+		collect = func(e ast.Expr) {
+			switch x := ast.Unparen(e).(type) {
+			case *ast.BinaryExpr:
+				if x.Op == token.LAND {
+					collect(x.X)
+					collect(x.Y)
+					return
+				}
+				if x.Op == token.EQL {
+					fa, oa := fieldOf(info, x.X)
+					fb, ob := fieldOf(info, x.Y)
+					if fa != "" && fa == fb && oa != ob && (oa == ops[0] || oa == ops[1]) && (ob == ops[0] || ob == ops[1]) {
+						compared[fa] = true
+					}
+				}
+			case *ast.CallExpr:
+				if len(x.Args) == 2 {
+					fa, oa := fieldOf(info, x.Args[0])
+					fb, ob := fieldOf(info, x.Args[1])
+					callee := goan.Callee(info, x)
+					if fa != "" && fa == fb && oa != ob && callee != nil && callee.Pkg() == pk.Types && strings.HasPrefix(callee.Name(), "equal") {
+						compared[fa] = true
+					}
+				}
+			}
+		}
+		// the comparison is the operand of the last return statement
+		var last *ast.ReturnStmt
+		for _, s := range fd.Body.List {
+			if r, ok := s.(*ast.ReturnStmt); ok {
+				last = r
+			}
+		}
+		if last == nil || len(last.Results) != 1 {
+			c.Anchor(rule, cs.fn, "final `return <conjunction>` not found")
+			continue
+		}
+		collect(last.Results[0])
+		for i := 0; i < st.NumFields(); i++ {
+			f := st.Field(i)
+			name, opts, has := goan.StructTagJSON(st.Tag(i))
+			visible := f.Exported() && !(has && name == "-")
+			construct := fmt.Sprintf("diff.%s › %s.%s", cs.fn, cs.typ, f.Name())
+			if visible {
+				c.Check(compared[f.Name()], rule, construct, c.posOf(pk, fd.Pos()),
+					"serialised field is compared", "field "+f.Name()+" is written to the JSON report but not compared by "+cs.fn+": ignoring one entry also ignores entries that differ only in this field")
+			} else {
+				c.Check(!compared[f.Name()], rule, construct, c.posOf(pk, fd.Pos()),
+					"non-serialised field is not compared", "field "+f.Name()+" is compared but never serialised: an ignore file read back can never match")
+			}
+			// omitempty only where zero value round-trips to zero: string, bool, int, pointer, slice, map
+			for _, o := range opts {
+				if o == "omitempty" {
+					switch u := f.Type().Underlying().(type) {
+					case *types.Basic, *types.Pointer, *types.Slice, *types.Map:
+						_ = u
+						c.Ok(rule, construct+" › omitempty", c.posOf(pk, f.Pos()), "zero value omitted and decoded back to the zero value")
+					default:
+						c.Bad(rule, construct+" › omitempty", c.posOf(pk, f.Pos()), "omitempty on a struct-typed field has no effect / is not symmetric")
+					}
+				}
+			}
+		}
+	}
+
 }
